@@ -3,6 +3,7 @@
 From Coq Require Import ZArith List Bool.
 From BV Require Import Lib.Cases Model.LaxSem Model.Restart Model.Pool
      Proofs.PoolJobs Proofs.PoolInv Proofs.PoolScan Proofs.PoolSoft.
+From BV Require Import Proofs.PoolMore.
 From BV Require Gen.G_pool_shape.
 Import ListNotations.
 Open Scope Z_scope.
@@ -102,6 +103,35 @@ Definition c06_cfg := mkcfg 2 (Some 4) (Some 6) None None 1 false false.
 Definition c06_tr : list event :=
   [EApply (Some 2) None None None; EAck 0 None 1; EAdvance 2; EScan false; EAdvance 1; EScan false;
    EAdvance 1; EScan false; EReady 0 None true 9; EScan false].
+(* the positive direction: when the soft limit is due the signal IS sent to the worker running
+   the job and the callback IS run with the job's limit (the scan's step for an accepted,
+   unresolved job whose hard limit is not due, not signalled before, its worker in the pool) ... *)
+Theorem C06_signal_is_sent_when_due : forall l s j x t p,
+    get_job s j = Some x -> kind x = KApply -> time_accepted x = Some t -> ready x = false ->
+    timed_out s (Some t) (eff_hard s x) = false ->
+    timed_out s (Some t) (eff_soft s x) = true ->
+    memZ j (dirty s) = false ->
+    owner x = Some p -> in_pool s p = true -> 0 <= j ->
+    sigs (scan_job l s j) = sigs s ++ [(p, SIGUSR1)]
+    /\ dirty (scan_job l s j) = dirty s ++ [j]
+    /\ get_job (scan_job l s j) j = Some (j_add_tmo x (true, soft x)).
+Proof. exact scan_job_soft_sends. Qed.
+Print Assumptions C06_signal_is_sent_when_due.
+
+(* ... and when that worker is no longer in the pool (it has been reaped) nothing is sent and the
+   job is remembered all the same: for such a job "exactly once" is zero times (the code's
+   behaviour, modelled as it is) *)
+Theorem C06_owner_gone_no_signal : forall l s j x t p,
+    get_job s j = Some x -> kind x = KApply -> time_accepted x = Some t -> ready x = false ->
+    timed_out s (Some t) (eff_hard s x) = false ->
+    timed_out s (Some t) (eff_soft s x) = true ->
+    memZ j (dirty s) = false ->
+    owner x = Some p -> in_pool s p = false ->
+    sigs (scan_job l s j) = sigs s /\ dirty (scan_job l s j) = dirty s ++ [j]
+    /\ jobs (scan_job l s j) = jobs s.
+Proof. exact scan_job_soft_owner_gone. Qed.
+Print Assumptions C06_owner_gone_no_signal.
+
 Example C06_witness :
   let s := run c06_cfg c06_tr in
   map (fun x => (value x, cb_tmo x)) (jobs s) = [(Some (PValue 9), [(true, Some 2)])].
